@@ -33,6 +33,8 @@ def skey(ev, ctx, code):
     cmd = (ev.get("cmd") or (ctx or {}).get("cmd") or "").replace(" ", "_")
     if ev["ev"] == "srun":
         return "%s:%s:k=%d" % (code, cmd, ev["k"])
+    if ev["ev"] == "sallow":
+        return "%s:%s:allowance=%d" % (code, cmd, ev["a"])
     return "%s:%s" % (code, cmd)
 
 
@@ -55,7 +57,7 @@ def judge(run, pid, results, kind, also=(), collect=None):
             if prop == pid or prop in also:
                 ev = lines[line - 1]
                 ctx = None
-                if ev["ev"] == "srun":
+                if ev["ev"] in ("srun", "sallow"):
                     for j in range(line - 1, -1, -1):
                         if lines[j]["ev"] == "sfull":
                             ctx = lines[j]
@@ -187,6 +189,9 @@ def c07(tier, replay):
     totals, summ = run_expiry(run, "C07", h, scen, "small,mate,rep,game,fam", 3, 2500 if q else 6000, 300000, 2, "expiry")
     if totals.get("srun", 0) == 0 or totals.get("cut_before_first", 0) == 0:
         raise ToolError("coverage hole: no expiry runs / no run cut before the first improvement")
+    if totals.get("sallow", 0) == 0:
+        raise ToolError("coverage hole: no runs with another allowance")
+    run.cov["runs_with_another_allowance"] = totals.get("sallow", 0)
     # searches that run to the END (iteration 99): positions whose root can repeat are searched in no time per depth, so the
     # reference run reaches the last iteration inside the query budget - lines then run past ply 99 through check
     # extensions and the null move's ply offset, where the per-ply tables end
@@ -214,7 +219,9 @@ def c07(tier, replay):
     run.cov["rule"] = ("scenarios = random small endgames, mate positions, third-repetition histories and game positions with their history; for each, "
                        "a reference run to the end of iteration 3 under the virtual clock, then ONE RUN PER EXPIRY INDEX k = 0..K (all of them when "
                        "K <= cap, else all below cap/2 plus a random sample); TLC checks per run: infos/sends are prefixes of the reference (or exactly "
-                       "the fallback), nothing accepted after the first expired query, repetition record restored, no panic, sends legal root moves")
+                       "the fallback), nothing accepted after the first expired query, repetition record restored, no panic, sends legal root moves; "
+                       "plus, per scenario, the same search handed eleven other ALLOWANCES (1 ms .. 10 min, virtual expiry far out): lines and boards "
+                       "prefix-related to the reference (`sallow` events)")
     os.remove(scen)
     return run.finish()
 
